@@ -1,0 +1,10 @@
+//go:build verif
+
+// Add-only verification hook for property C19 (the AVL index behaves as a balanced set):
+// the node object and the tree an iterator currently points to (unexported fields), so that
+// the harness can compare the pointer an iterator holds with the pointer-level model.
+package autodiff
+
+func VerifC19IterNode(it *AvlIterator) *AvlNode { return it.node }
+
+func VerifC19IterTree(it *AvlIterator) *AvlTree { return it.tree }
